@@ -45,9 +45,11 @@ class Scratch:
 
     def __init__(self, size=32768):
         self.size = size
-        self._raw = ctypes.create_string_buffer(size + 128)
+        self._raw = ctypes.create_string_buffer(size + 256)
         base = ctypes.addressof(self._raw)
-        self.addr = (base + 63) & ~63
+        # 64 junk bytes in front of the block: a read just before an operand sees garbage, not zeros
+        self.addr = ((base + 63) & ~63) + 64
+        ctypes.memmove(self.addr - 64, JUNK_TAIL, 64)
         self.ptr = ctypes.c_void_p(self.addr)
 
     def write(self, data, off=0):
